@@ -3,7 +3,19 @@
 Importing this module registers all rules."""
 from __future__ import annotations
 
-from .rules import own, pair, order, values, lock, calls, trav, sib, fmt  # noqa: F401
+from .rules import (  # noqa: F401
+    calls,
+    export,
+    fmt,
+    lock,
+    misc,
+    order,
+    own,
+    pair,
+    sib,
+    trav,
+    values,
+)
 
 #: hand-confirmed floors for the units analysed (fail closed below)
 UNIT_FLOORS = {"modules": 11, "classes": 26, "functions": 235, "call_sites": 680}
@@ -12,37 +24,162 @@ MAX_WEAK_SITES = 3
 
 _COMMON_ASSUME = [
     "static analysis of /repo/nutree/*.py only; nothing is imported or executed",
-    "the claim is the conjunction of the listed structural clauses, each a necessary condition; "
+    "the claim is the conjunction of the listed structural clauses, each a necessary condition of the property; "
     "the behaviour over runtime values is NOT decided",
-    "no monkey-patching / out-of-package subclasses / object.__setattr__",
+    "no monkey-patching, no out-of-package subclasses, no object.__setattr__ / __dict__ tricks",
     "user callbacks do not mutate the tree; user data objects are not Node/Tree instances",
+    "callee resolution is nominal (annotations, MRO, frozen supplement tables); flow-insensitive aliasing refined by reaching definitions",
 ]
 
 
 def _p(explanation: str, not_decided: str, extra=()):
-    return {"explanation": explanation, "not_decided": not_decided,
-            "assumptions": _COMMON_ASSUME + list(extra)}
+    return {"explanation": explanation, "not_decided": not_decided, "assumptions": _COMMON_ASSUME + list(extra)}
 
 
 PROPS = {
     "C01": _p(
-        "Inductive skeleton of the tree invariant: OWN-1 closes the set of writers of the structural "
-        "fields; PAIR-1/2 pair linking with registration and unlinking with complete, children-first "
-        "unregistration on every CFG path of every owner-layer mutator; MUST-EFFECT fixes the writes each "
-        "primitive must perform on every normal path; REG-CHK tests node-id uniqueness before the id map is "
-        "written and rolls back on refusal; ID-EQ forces identity (not ==) when a node is taken out of a child "
-        "list; GUARD-CYCLE demands an ancestry refusal before re-parenting; ITER-INV forbids mutating a child "
-        "list while it is iterated.",
-        "that guard conditions are right for every tree shape; list.sort's permutation property; concrete histories",
+        "Inductive skeleton of the tree invariant. OWN-1 closes the set of writers of the structural fields (only the "
+        "Node family and Tree.__init__/_register/_unregister write them; a synthetic foreign writer is detected on every run). "
+        "MUST/PAIR-1: on every normal CFG path linking is paired with registration (Node.__init__ sets all fields and calls "
+        "_register after the keys are set; add_child links the constructed node before returning it; only freshly constructed "
+        "nodes - or self after being unlinked, in move_to - are inserted into a child list) and unlinking with complete, "
+        "children-first unregistration (remove, remove_children with a post-order walk, clear, del, filter). REG-CHK: node-id "
+        "membership is tested before the id map is written and a refusal rolls the map back. UNREG-SHAPE: identity removal. "
+        "ID-EQ: a node is taken out of a child list by identity, not ==. GUARD-CYCLE: re-parenting is dominated by an ancestry "
+        "refusal. ITER-INV/ACC-REBIND: no live child list is changed while iterated.",
+        "that the guards' conditions are right for every tree shape, list.sort's permutation property, concrete histories",
     ),
-    "C13": _p("ORDER-VBM, CB-CRIT, REG-CHK rollback, PURE for read-only operations.", "exceptions from deep inside containers"),
-    "C08": _p("filter rules", "kept set"),
     "C02": _p(
-        "Index exactness clauses: OWN-1 for the two maps and _data/_data_id; PAIR-3 (every re-key moves the node "
-        "between slots on every branch of set_data); REG-CHK / UNREG-SHAPE (append on register, identity removal "
-        "and empty-slot deletion on unregister); ID-EQ on clone lists; ESCAPE (no API returns the internal clone "
-        "list); LIMIT on the index path; FALSY (falsy ids/data are not special); DATAID-DEF (explicit id, else "
-        "hook, else hash) and who-may-call calc_data_id.",
+        "Index exactness clauses. OWN-1 for both maps and _data/_data_id; MUST (_register stores and appends, _unregister "
+        "deletes); PAIR-3 (every re-key in set_data leaves the old slot and enters exactly the new key first, on every branch); "
+        "UNREG-SHAPE (identity pop with the matching index, emptied slot deleted, keys read before being nulled); ID-EQ on "
+        "clone lists; ESCAPE (no public API returns index storage); LIMIT on the index path; FALSY (falsy ids/data are ordinary "
+        "values); DATAID-DEF (explicit id, else callback, else hash; calc_data_id called only where an id must be derived; clone "
+        "queries read the node's own slot); EXH-5 (lookups read the index under the computed id); PURE for the lookups.",
         "hash collisions, user __eq__/__hash__, the lists' contents for a concrete history",
+    ),
+    "C03": _p(
+        "GUARD-UNIQ over every route, found by effect not by name: every write of a registered node's _parent or _data_id is "
+        "dominated by a refusal that can raise UniqueConstraintError; new nodes reach _register (MUST, PAIR-1). REG-CHK fixes "
+        "the refusal in _register: the clone list is scanned comparing parents by identity, raises the library's error, before "
+        "the append. SIB-ADD: both add_child pre-checks test `source._parent is self`.",
+        "that `clone.parent is node.parent` is the right comparison for every shape (read once by hand)",
+    ),
+    "C04": _p(
+        "Frame and plumbing only. FRAME: each mutator's write set stays inside its documented footprint; metadata API cases; "
+        "sort in place with the caller's key/direction; set_data touches clones only under with_clones. KWARGS-FWD + SHORTCUT: "
+        "the shortcuts call the primitive on the documented receiver with the documented position. CALL-BIND/UNCALLED/LSP-SIG: "
+        "those calls bind and pass values, not bound methods. SIB-ADD: the `before` dispatch of both add_child implementations "
+        "(None->append, True->0, int->insert, node->insert at its position). MUST: the returned node is linked; move_to "
+        "unlinks, re-parents, links. ID-EQ at index(before). FALSY in set_data/add_child. PAIR-3. ALIAS-STORE for _meta.",
+        "positions and orders as values for every shape x argument, sort results, equality with an executable specification "
+        "(the largest undecided remainder of any property)",
+    ),
+    "C05": _p(
+        "Option plumbing and key agreement. KWARGS-FWD on save/load (path and stream branch) and the typed overrides; LSP-SIG "
+        "(TypedTree accepts every storage option of Tree); FMT: compression is False is the only non-zip case, the zip method is "
+        "forwarded, the text wrapper is flushed, maps written to the header are the ones applied, compress/uncompress mirrored "
+        "under the long key, clone references under equal kind and keyed by _data_id, readers re-create clones through the index "
+        "map keeping data_id and kind, default key maps injective and collision-free with the class's mapper; KEYS (every entry "
+        "key written is read by the matching loader); SIB-ENTRY (custom data_id on every entry path); SIB-ADD (the reader can "
+        "place a clone below a sibling of its first occurrence); CLS-HARD (cls() in both _from_list); COPY-ID; PURE for save.",
+        "equality of the loaded tree with the saved one, user mappers, zip/JSON library behaviour, unicode",
+    ),
+    "C06": _p(
+        "EXH-1 (method table complete, unsupported methods refused, rtl/zigzag flags, Tree.iterator serves UNORDERED/RANDOM from "
+        "the id map); ORDER-TRAV (pre = emit then descend, post = descend then emit, one emission and one descent per child; level "
+        "walkers emit each level once, build the next from each node's children in order, reset it, flip direction once per level; "
+        "skip verdicts cut the descent); SIB-ITER (iterator and visit agree on where the start node goes; one StopTraversal handler "
+        "around everything returning its value); EXH-2 (normaliser covers every returned/raised control value; callbacks invoked "
+        "only through it); KWARGS-FWD Tree.visit/iterator; PURE for all walkers.",
+        "the order as a sequence for concrete trees; random.shuffle",
+    ),
+    "C07": _p(
+        "PURE w.r.t. the source for every copy route (including the source's child order); PAIR-1 (only constructed nodes are "
+        "linked: no source node enters the target); ALIAS-STORE (no node's _children/_meta is bound to another's container); "
+        "COPY-ID (the source's data_id - and kind in typed code - travels with the data); CLS-HARD (copies instantiate the "
+        "receiver's class); COPY-LINEAR (_add_from copies and recurses once per child in order); SIB-ADD; KWARGS-FWD/SHORTCUT on "
+        "copy/copy_to; MUST (deep copies recurse through _add_from).",
+        "equality of shapes; later histories beyond 'no shared mutable container'",
+    ),
+    "C08": _p(
+        "EXH-2 for call_predicate; SIB-FILTER (both implementations realise the user guide's verdict table, and the same one; "
+        "predicate evaluated once per child; StopTraversal caught once at the top, nothing undone); ITER-INV, ACC-REBIND, "
+        "COPY-LINEAR (a node is copied at most once per visit); MUST (in-place removals go through remove()); KWARGS-FWD "
+        "(filtered == copy(predicate=)); PURE for the copying form w.r.t. the source; DIFF reduce uses filter.",
+        "the kept set as a value for a concrete predicate",
+    ),
+    "C09": _p(
+        "LIMIT (slice direction, every returned list honours max_results, the generator counts before testing >=, find_first asks "
+        "for one and returns res[0] or None); FALSY; REGEX-FULL; SEARCH (_search walks the default pre-order iterator with the "
+        "caller's add_self, skips non-matches, yields each match once); EXH-5 (index access: refusal classes and resolution order "
+        "node_id -> data_id -> data; __contains__ == find_first); MUST (__delitem__); PURE; KWARGS-FWD.",
+        "regex semantics, the match set as a value",
+    ),
+    "C10": _p(
+        "PURE for all relationship queries; ID-EQ (positions found by identity); OPT-DEREF; PARENT-WALK (the parent-walk family "
+        "stops at the system root by the same test, `parent` maps the root to None, end-of-list accessors, counts and height "
+        "definitions); EXIST-CMP; RANGE-GUARD.",
+        "the numeric results for concrete trees",
+    ),
+    "C11": _p(
+        "PURE w.r.t. both inputs; DIFF (every classification assigned and rendered; REMOVED on copies of first-tree children, ADDED "
+        "on copies of second-tree children; compare(t0 root, t1 root, result root); one-sided children by data_id; moves re-label "
+        "members of the added/removed sets; order marks (old, new) only under ordered; reduce filters on the same meta key); "
+        "KWARGS-FWD Tree.diff.",
+        "the projection laws, i.e. the content of the result",
+    ),
+    "C12": _p(
+        "KEYS against the user guide's literal examples (header and structural keys), FMT (1-based indices with 0 for the root in "
+        "writer and both readers, parent index recorded before children, clone references, maps, header validation in load, default "
+        "key maps as documented), SIB-ENTRY, PURE.",
+        "byte-level output; documents produced by other means beyond the examples' key sets",
+    ),
+    "C13": _p(
+        "ORDER-VBM (no CFG path write -> refusal without the inverse write, refusals include raising callees, guard-aware); REG-CHK "
+        "rollback; CB-CRIT (no user callback between the first and last structural write of a primitive); PURE for the read-only "
+        "operations the property lists; FRAME set_data decision.",
+        "exceptions from deep inside Python containers; what a callback does besides raising",
+    ),
+    "C14": _p(
+        "KEYS (data, data_id, children written and read), FMT (data_id only when not default, recursion in child order on both "
+        "sides, to_dict_list one dict per top-level node), OPT-DEREF (emptied tree), LOCK, PURE.",
+        "round-trip equality, mappers",
+    ),
+    "C15": _p(
+        "KIND-BRANCH (any-kind branch reads the unfiltered list, kind branch compares _kind by equality, defaults), RANGE-GUARD, "
+        "EXIST-CMP, OPT-DEREF, ID-EQ, CALL-BIND/UNCALLED/LSP-SIG on the typed wrappers, MUST (_kind set), PURE.",
+        "equality with 'filter the child list by kind' as a value",
+    ),
+    "C16": _p(
+        "RENDER (style table well-formed: 4/6 string segments, indent segments of equal width, compact styles distinguish "
+        "has-children; _get_prefix: one indent segment per ancestor by identity-last, connector by (last, has children), both "
+        "arities accepted, others refused; one line per node of the default walk; the prefix path calls no kind-sensitive override; "
+        "title plumbing); KWARGS-FWD on format/format_iter/print; PURE.",
+        "the text",
+    ),
+    "C17": _p(
+        "SIB-EXPORT (DOT and Mermaid: same walk for nodes and edges, one key function, exactly the excluded root's edges skipped, "
+        "one edge per node, typed labels; RDF triples), OPT-TRUTH, KWARGS-FWD on the seven export wrappers, PURE.",
+        "the emitted text/graph as a value",
+    ),
+    "C18": _p(
+        "Lockset analysis, fully in family: LOCK-1 every structural read of save/copy/filtered/copy_to/to_dict_list/to_dotfile (and "
+        "subclass overrides) happens inside `with tree:` or in a callee that locks; LOCK-2 __enter__ acquires (blocking) and returns "
+        "self, __exit__ releases exactly once on every path and does not swallow; LOCK-3 the lock is created once as threading.RLock "
+        "and every subclass constructor reaches Tree.__init__; LOCK-4 no nested foreign tree lock (positive control on every run).",
+        "that writers use `with tree:` (the property assumes it)",
+    ),
+    "C19": _p(
+        "FS (both branches build the same entry shapes with size<-st_size, mdate<-st_mtime; one recursion per directory below its "
+        "own node; sorted branch: files by name then directories by name, returning before the unsorted scan), KEYS for the "
+        "FileSystemTree mappers, FMT key-map collision (why DEFAULT_KEY_MAP is {}).",
+        "agreement with an actual directory; OS behaviour",
+    ),
+    "C20": _p(
+        "GEN (every Randomizer.generate tests the skip probability first; merge order * -> type -> relation; counts resolved; "
+        "1-based idx and dotted hier_idx both supplied; skipped keys removed after the scan; typed parents get kind=node_type; "
+        "children only for types with relations; requested class instantiated), ITER-INV(c) in _resolve_random_dict, KWARGS-FWD.",
+        "every numeric clause (ranges, counts, probability)",
     ),
 }
